@@ -514,6 +514,24 @@ func (e *Engine) assignTo(l ast.Expr, v Value, st *State) {
 		}
 		st.vars[obj] = v
 	case *ast.SelectorExpr:
+		// s[i].f = v on a slice of struct values: update the field array of the slice
+		if ix, ok := ast.Unparen(lx.X).(*ast.IndexExpr); ok {
+			if sl, ok := e.eval(ix.X, st).(VSlice); ok && sl.Fields != nil {
+				idx := term(e.eval(ix.Index, st))
+				e.boundsCheck(st, idx, sl.Len, e.src(l))
+				arr, ok := sl.Fields[lx.Sel.Name]
+				if !ok {
+					unsup("field %s of slice element not modelled at %s", lx.Sel.Name, e.src(l))
+				}
+				n := VSlice{Len: sl.Len, Elem: sl.Elem, Fields: map[string]*Term{}}
+				for k, a := range sl.Fields {
+					n.Fields[k] = a
+				}
+				n.Fields[lx.Sel.Name] = mkStoreK(arr, idx, term(v))
+				e.assignTo(ix.X, n, st)
+				return
+			}
+		}
 		base := e.eval(lx.X, st)
 		bt, ok := base.(VTerm)
 		if !ok || bt.T.Sort != SRef {
@@ -532,15 +550,7 @@ func (e *Engine) assignTo(l ast.Expr, v Value, st *State) {
 			unsup("index assignment on %T at %s", base, e.src(l))
 		}
 		e.boundsCheck(st, idx, sl.Len, e.src(l))
-		var et *Term
-		switch vv := v.(type) {
-		case VStream:
-			et = vv.ID
-		default:
-			et = term(v)
-		}
-		nsl := VSlice{Arr: mkStore(sl.Arr, idx, et), Len: sl.Len, Elem: sl.Elem}
-		e.assignTo(lx.X, nsl, st)
+		e.assignTo(lx.X, e.sliceStore(sl, idx, v, st), st)
 	case *ast.StarExpr:
 		unsup("pointer store at %s", e.src(l))
 	default:
@@ -691,6 +701,13 @@ func (e *Engine) eval(x ast.Expr, st *State) Value {
 			if cl, ok := ast.Unparen(ex.X).(*ast.CompositeLit); ok {
 				return e.evalComposite(cl, st)
 			}
+			if id, ok := ast.Unparen(ex.X).(*ast.Ident); ok {
+				if o, ok := e.info().ObjectOf(id).(*types.Var); ok {
+					if _, bound := st.vars[o]; bound {
+						return VAddr{Obj: o}
+					}
+				}
+			}
 			unsup("address-of at %s", e.src(ex))
 		}
 		unsup("unary %s", ex.Op)
@@ -710,7 +727,7 @@ func (e *Engine) eval(x ast.Expr, st *State) Value {
 		switch b := base.(type) {
 		case VSlice:
 			e.boundsCheck(st, idx, b.Len, e.src(ex))
-			return e.wrap(mkSelect(b.Arr, idx), b.Elem)
+			return e.sliceElem(b, idx)
 		case VMap:
 			v, _ := e.mapGet(b, idx)
 			return v
@@ -828,9 +845,15 @@ func (e *Engine) binop(op string, l, r *Term, resT types.Type, st *State, where 
 	case "%":
 		e.assert(st, mkNot(mkEq(r, mkInt(0))), "div-by-zero", where, nil)
 		return e.truncMod(l, r)
-	case "==":
-		return mkEq(l, r)
-	case "!=":
+	case "==", "!=":
+		if a, b := numUnify(l, r); a.Sort != b.Sort {
+			// interface value compared with a concrete value of another representation: outcome not modelled
+			e.notes["comparison between an interface value and a concrete value is not modelled (arbitrary outcome) at "+where] = true
+			return e.fresh("ifacecmp", SBool)
+		}
+		if op == "==" {
+			return mkEq(l, r)
+		}
 		return mkNot(mkEq(l, r))
 	case "<", "<=", ">", ">=":
 		return mkCmp(op, l, r)
@@ -885,6 +908,9 @@ func (e *Engine) evalSelector(ex *ast.SelectorExpr, st *State) Value {
 		unsup("method value %s at %s", ex.Sel.Name, e.src(ex))
 	}
 	base := e.eval(ex.X, st)
+	if el, isEl := base.(VElem); isEl {
+		return e.elemField(el, ex.Sel.Name)
+	}
 	bt, ok := base.(VTerm)
 	if !ok || bt.T.Sort != SRef {
 		unsup("field access on %T at %s", base, e.src(ex))
@@ -947,6 +973,12 @@ func (e *Engine) readField(st *State, base VTerm, field string) Value {
 	case *types.Slice:
 		if v, ok := st.memV[key]; ok {
 			return v
+		}
+		if sv := structValueElem(u.Elem()); sv != nil {
+			nm := "fld_" + tname + "_" + field
+			ln := mkApp(nm+"_len", SInt, base.T)
+			st.assume(mkCmp(">=", ln, mkInt(0)))
+			return VSlice{Len: ln, Elem: u.Elem(), Fields: e.structFields(sv, func(n string, fs Sort) *Term { return mkApp(nm+"_f_"+n+"__"+sortTag(fs), arraySort(SInt, fs), base.T) })}
 		}
 		es := e.elemSort(u.Elem())
 		nm := "fld_" + tname + "_" + field + "__" + sortTag(es)
